@@ -126,7 +126,7 @@ func VX_C03_lex_modes() {
 
 func vxLexerInMode() (*Lexer, string, int) {
 	m := mode(1 + vxSplit("mode", int(embellishedTripleBacktickMode)))
-	n := vxSourceLen()
+	n := vxSplit("len", 3) // 0..2 bytes in both tiers (29 modes x 256^n inputs)
 	src := vxString("src", n)
 	// the mode is entered the way the lexer enters it: pushed on top of the base mode
 	var l *Lexer
